@@ -293,3 +293,22 @@ class Trial(object):
 
     def discard(self):
         del self._log[:]
+
+
+def on_trial(ctx, structural, tables, rids, what):
+    """Run the structural reading `structural(ctx)` on trial; when it ends with a complaint, drop what it recorded and decide rules `rids` by the scenario tables of the
+    functions `tables` (interpretation on abstract inputs) instead."""
+    trial = Trial(ctx)
+    try:
+        structural(trial)
+    except AnalysisError as e:
+        trial.complaints.append(str(e)[:80])
+    if not trial.complaints:
+        trial.commit()
+        return True
+    trial.discard()
+    from .scenario_rule import rule_scenarios
+    for rid in rids:
+        for q in tables:
+            rule_scenarios(ctx, rid, only=q, title='%s (%s by interpretation; the structural reading gave up on: %s)' % (what, q.rsplit('.', 1)[-1], '; '.join(trial.complaints[:2])))
+    return False
